@@ -610,6 +610,10 @@ def _spawn(arg: dict[str, Any], seeds: list[int], run: Any) -> Optional[dict[int
     from bounded._c13_spawn import run_child  # pylint: disable=import-outside-toplevel
     out = {}
     for seed in seeds:
+        if run.out_of_time():
+            if len(out) < 2:
+                return None
+            break  # compare the seeds evaluated so far
         try:
             out[seed] = run_child("bounded.C17", "child_eval", arg, seed)
         except Exception as err:  # pylint: disable=broad-except
@@ -629,12 +633,12 @@ def _run_seed(shard: dict[str, Any], run: Any) -> None:
     if results is None:
         return
     for k, scn in enumerate(scns):
-        compare_pipeline(run, "seed", scn, {str(seed): results[seed]["pipeline"][k] for seed in shard["seeds"]})
+        compare_pipeline(run, "seed", scn, {str(seed): results[seed]["pipeline"][k] for seed in results})
     for j, job in enumerate(shard["jobs"]):
         clause = f"seed/hits-kept ({job['fam']})"
         for k, case in enumerate(_t_job_cases(job, shard["chunk"], shard["of"])):
             groups: dict[str, list[int]] = {}
-            for seed in shard["seeds"]:
+            for seed in results:
                 groups.setdefault(results[seed]["t"][j][k], []).append(seed)
             problem = None
             if len(groups) > 1:
